@@ -33,3 +33,22 @@ package host
 // verif:func ConsensusStateKey
 //@ inline
 //@ ensures [injective] forall r2 uint64 :: forall h2 uint64 :: result == ConsensusStateKey(clienttypes.NewHeight(r2, h2)) ==> height.GetRevisionNumber() == r2 && height.GetRevisionHeight() == h2
+
+// ---- per-pair prefixes: the prefix of (src, dst) selects exactly the keys written for (src, dst) (C19: "every stored
+// key is read back as the triple it was written for" in the by-path readers, which label what they find with the pair
+// they asked for) ----
+// verif:func PacketCommitmentPrefixPath
+//@ inline
+//@ ensures [selects-exactly-its-pair] forall s2 string :: forall d2 string :: forall q2 uint64 :: noslash(srcChain) && noslash(dstChain) && noslash(s2) && noslash(d2) ==> (hasprefix(PacketCommitmentKey(s2, d2, q2), bytes(result)) <==> s2 == srcChain && d2 == dstChain)
+
+// verif:func PacketAcknowledgementPrefixPath
+//@ inline
+//@ ensures [selects-exactly-its-pair] forall s2 string :: forall d2 string :: forall q2 uint64 :: noslash(srcChain) && noslash(dstChain) && noslash(s2) && noslash(d2) ==> (hasprefix(PacketAcknowledgementKey(s2, d2, q2), bytes(result)) <==> s2 == srcChain && d2 == dstChain)
+
+// verif:func PacketReceiptPrefixPath
+//@ inline
+//@ ensures [selects-exactly-its-pair] forall s2 string :: forall d2 string :: forall q2 uint64 :: noslash(srcChain) && noslash(dstChain) && noslash(s2) && noslash(d2) ==> (hasprefix(PacketReceiptKey(s2, d2, q2), bytes(result)) <==> s2 == srcChain && d2 == dstChain)
+
+// verif:func PacketRelayerPrefixPath
+//@ inline
+//@ ensures [selects-exactly-its-pair] forall s2 string :: forall d2 string :: forall q2 uint64 :: noslash(srcChain) && noslash(dstChain) && noslash(s2) && noslash(d2) ==> (hasprefix(PacketRelayerKey(s2, d2, q2), bytes(result)) <==> s2 == srcChain && d2 == dstChain)
